@@ -18,7 +18,7 @@ FLOORS = {"quick": {"runs_checked": 45, "local_steps_checked": 1000, "rejected_a
 K_TOL = 200.0
 K_GLOB = 20.0
 K_LOC = 50.0
-CASE_TIMEOUT = 1200
+CASE_TIMEOUT = 600
 
 
 class LinExp:
@@ -67,13 +67,13 @@ def gen_cases(tier, seed):
     rng = rng_for(502, seed)
     adaptive = [n for n, i in M.items() if i["adaptive"]]
     cases = []
-    reps = 4 if tier == "quick" else 30
+    reps = 4 if tier == "quick" else 14
     for name in adaptive:
         info = M[name]
         for r in range(reps):
             lo = np.log10(min_rtol(info["order"], info["explicit"]))
             rt = 10 ** float(rng.uniform(lo, -3))
-            if name == "RadauIIA19" and (tier == "quick" and r > 1):
+            if name == "RadauIIA19" and r > (1 if tier == "quick" else 3):
                 continue
             d = 1 if r % 2 == 0 else -1
             span = float(rng.uniform(1.5, 6.0))
@@ -116,7 +116,7 @@ def gen_cases(tier, seed):
             cases.append(dict(kind="closing", method=name, rich=0, problem="quiet_bump", dim=2, rtol=10 ** float(rng.uniform(-7, -4)), atol=10 ** float(rng.uniform(-8, -5)),
                               t0=t0, tf=t0 + d * span, dt=0.01 * span, dtfrac=0.01, pseed=int(rng.integers(1 << 30)), cost=(8 if M[name]["explicit"] else 60)))
     # Richardson wrappers
-    rbases = ["RK4Solver", "MidpointSolver", "EulerSolver", "RK45CKSolver"] + (["HeunsSolver", "ImplicitMidpoint", "RK5Solver", "BackwardEuler"] if tier == "thorough" else [])
+    rbases = ["RK4Solver", "MidpointSolver", "EulerSolver", "RK45CKSolver"] + (["HeunsSolver", "RK5Solver", "RalstonsSolver"] if tier == "thorough" else [])
     for name in rbases:
         for n in ([3, 4] if tier == "quick" else [2, 3, 4, 5]):
             for r in range(2 if tier == "quick" else 6):
@@ -132,7 +132,7 @@ def gen_cases(tier, seed):
         for r in range(1 if tier == "quick" else 3):
             for sub in ["blowup", "blowup_back"]:
                 cases.append(dict(kind="blowup", sub=sub, method=name, rich=0, rtol=10 ** float(rng.uniform(-9, -4)), atol=1e-10,
-                                  dt=float(rng.choice([1e-3, 0.1, 0.7])), pseed=int(rng.integers(1 << 30)), cost=15))
+                                  dt=float(rng.choice([1e-3, 0.1, 0.7] if M[name]["order"] < 8 else [1e-3, 0.05, 0.1])), pseed=int(rng.integers(1 << 30)), cost=15))
     return cases
 
 
